@@ -195,7 +195,13 @@ def build(spec, plain=False):
         for ch in cs.get("children", []):
             m.components[i].append_child_component(m.components[ch])
         for ti in cs.get("tasks", []):
-            m.components[i].append_targeted_task(m.tasks[ti])
+            if cs.get("wire") == "ctor":
+                # as the constructor keyword does: the component lists the task, the task does not point back
+                m.components[i].targeted_task_list.append(m.tasks[ti])
+            else:
+                m.components[i].append_targeted_task(m.tasks[ti])
+        for ti in cs.get("also_lists", []):
+            m.components[i].targeted_task_list.append(m.tasks[ti])  # a task listed by a second component (its own link points elsewhere)
     for tms in spec.get("teams", []):
         if tms.get("wire") == "ctor":
             # one-sided wiring through the constructor keyword: only the team knows its tasks
@@ -233,6 +239,8 @@ def build(spec, plain=False):
             w._vh = 200 + (whash[nres[0]] if whash and nres[0] < len(whash) else nres[0])
             nres[0] += 1
             team.add_worker(w)
+            if ws.get("team_id"):
+                w.team_id = ws["team_id"]  # a worker on loan: listed here, administratively member of another team (save/load checks only)
             m.workers.append(w)
             m.byname[w.ID] = w
         for ti in (tms.get("targets", []) if tms.get("wire") != "ctor" else []):
